@@ -66,10 +66,34 @@ fn start_zones(thorough: bool) -> Vec<(&'static str, Vec<Rr>)> {
     let z3 = vec![soa("z.", 60, 5, 1), ns("z.", 60, "n1.o."), a("a.z.", 60, 1)];
     let mut z6 = z3.clone();
     z6.extend([a("a.z.", 60, 2), a("b.z.", 60, 1), txt("a.a.z.", 60, "t")]);
-    if thorough {
-        vec![("zone3", z3), ("zone6", z6)]
+    let _ = thorough;
+    let mut v = vec![("zone3", z3), ("zone6", z6)];
+    // serial regimes: histories of <= 3 effective updates cross 2^31 and the 2^32 wrap and pass
+    // through serial 0
+    for (name, s) in [
+        ("zone3:serial=0", 0u32),
+        ("zone3:serial=1", 1),
+        ("zone3:serial=2^31-1", (1u32 << 31) - 1),
+        ("zone3:serial=2^31", 1u32 << 31),
+        ("zone3:serial=2^32-2", u32::MAX - 1),
+        ("zone3:serial=2^32-1", u32::MAX),
+    ] {
+        v.push((name, vec![soa("z.", 60, s, 1), ns("z.", 60, "n1.o."), a("a.z.", 60, 1)]));
+    }
+    v
+}
+
+/// Indices of the first serial-regime start zone and of the messages used from those zones (a
+/// reduced alphabet: three messages that are effective one after the other, the SOA replacement
+/// and a two-row move).
+const FIRST_SERIAL_ZONE: usize = 2;
+const SERIAL_ZONE_ALPHABET: [usize; 5] = [0, 4, 5, 8, 10];
+
+fn zone_alphabet(zone: usize, n: usize) -> Vec<usize> {
+    if zone >= FIRST_SERIAL_ZONE {
+        SERIAL_ZONE_ALPHABET.to_vec()
     } else {
-        vec![("zone3", z3)]
+        (0..n).collect()
     }
 }
 
@@ -595,7 +619,8 @@ fn run_history(w: &mut Worker, plan: &Plan, zone: usize, hist: &[usize], only: O
     if life.acks.iter().skip(1).any(|a| a.points.iter().any(|p| p.inflight_serial.is_none())) {
         l.outcome("machinery:in-flight-soa-query-did-not-complete");
     }
-    let conts = seqs(plan.alpha.len(), plan.cont_len(hist.len()));
+    let za = zone_alphabet(zone, plan.alpha.len());
+    let conts: Vec<Vec<usize>> = seqs(za.len(), plan.cont_len(hist.len())).into_iter().map(|s| s.into_iter().map(|i| za[i]).collect()).collect();
     for k in life.crash_points() {
         if only.map(|o| o.k.is_some() && o.k != Some(k)).unwrap_or(false) {
             continue;
@@ -759,29 +784,37 @@ fn main() {
         ctx.finish(false);
     }
 
-    let hist_len = if thorough { 4 } else { 3 };
-    let nz = if thorough { 2 } else { 1 };
-    let mut hists: Vec<Vec<usize>> = vec![vec![]];
-    hists.extend(seqs(alpha.len(), hist_len));
-    // thorough: the longest histories only from the small zone (cost), all others from both
-    let mut cases: Vec<(usize, usize)> = vec![];
-    for zone in 0..nz {
-        for (hi, h) in hists.iter().enumerate() {
-            if zone == 0 || h.len() <= 3 {
-                cases.push((hi, zone));
-            }
-        }
+    // histories: zone3 with the full alphabet (<= 3 quick / <= 4 thorough), thorough also zone6
+    // (<= 3), and the six serial-regime zones with the reduced alphabet (<= 3, both tiers)
+    let mut cases: Vec<(Vec<usize>, usize)> = vec![];
+    let mut hists_total = 0usize;
+    for zone in 0..zones.len() {
+        let max_len = match zone {
+            0 => if thorough { 4 } else { 3 },
+            1 => if thorough { 3 } else { continue },
+            _ => 3,
+        };
+        let za = zone_alphabet(zone, alpha.len());
+        let mut hs: Vec<Vec<usize>> = vec![vec![]];
+        hs.extend(seqs(za.len(), max_len).into_iter().map(|s| s.into_iter().map(|i| za[i]).collect::<Vec<usize>>()));
+        hists_total += hs.len();
+        cases.extend(hs.into_iter().map(|h| (h, zone)));
     }
-    ctx.set("histories", json!(hists.len()));
+    let nz = cases.iter().map(|c| c.1).collect::<std::collections::BTreeSet<_>>().len();
+    ctx.set("histories", json!(hists_total));
     ctx.set("history_x_start_zone_cases", json!(cases.len()));
     ctx.set("start_zones", json!(nz));
     ctx.set("alphabet", json!(alpha.iter().map(|m| m.name).collect::<Vec<_>>()));
+    ctx.set("start_zone_names", json!(zones.iter().map(|z| z.0).collect::<Vec<_>>()));
+    ctx.set("serial_zone_alphabet", json!(SERIAL_ZONE_ALPHABET.iter().map(|i| alpha[*i].name).collect::<Vec<_>>()));
     ctx.set("continuation_length_after_histories_up_to_2_messages", json!(plan.cont_len_short));
     ctx.set("continuation_length_after_longer_histories", json!(plan.cont_len_long));
     ctx.set("second_crash_after_histories_up_to", json!(plan.second_crash_max_hist));
     ctx.set_rule(
         "every history of <= L signed UPDATE messages over a 12-message alphabet (1-3 update RRs, a rejected update, a no-op, a SOA replacement; \
-         L = 3 quick / 4 thorough) from a freshly persisted zone (3 RRs; thorough also 6 RRs, histories <= 3) on the real Catalog -> \
+         L = 3 quick / 4 thorough) from a freshly persisted zone (3 RRs at serial 5; thorough also 6 RRs, histories <= 3), plus every history of <= 3 \
+         messages over a 5-message sub-alphabet from the 3-RR zone at serials 0, 1, 2^31-1, 2^31, 2^32-2 and 2^32-1 (the serial crosses 2^31, wraps \
+         at 2^32 and passes through 0; all serial comparisons in RFC 1982 arithmetic, serials exactly 2^31 apart not judged), on the real Catalog -> \
          SqliteZoneHandler with a file-backed journal; for each history EVERY durable row count observed by a second connection at every \
          journal write point and acknowledgement (with per-row autocommit: every prefix 0..R, including every stop inside the initial dump) is \
          cut into a fresh journal and recovered with recover_with_journal; then, once per distinct recovered journal, every continuation of <= C \
@@ -802,8 +835,8 @@ fn main() {
         1,
         |wid| Worker::new(wid),
         |i, l, w| {
-            let (hi, zone) = cases[i as usize];
-            let hist = &hists[hi];
+            let (hist, zone) = &cases[i as usize];
+            let zone = *zone;
             let d1 = run_history(w, &plan, zone, hist, None, l);
             // determinism self-test on a fixed slice: the same case again must look the same
             if i % 8 == 0 && (hist.len() <= 2 || i % 64 == 0) {
